@@ -34,6 +34,10 @@ CONSTANTS
   SwapAmounts = {}
   MaxRej = 4
   Sample = TRUE
+  InitIbc = 0
+  DeployExtra = {}
+  HookVariants = {}
+  UpgradeTo = {}
   MathMaxIn = 0
   MathScales = {0}
 CONSTRAINT GenConstraint
